@@ -143,7 +143,7 @@ def fields(resp):
     d = {}
     parts = resp.split('\t')
     for k, p in enumerate(parts):
-        if len(p) >= 2 and p[1] == ':' and p[0].isalpha() and p[0].isupper():
+        if len(p) >= 2 and p[1] == ':' and p[0] in 'OEFKNIX':
             d[p[0]] = p[2:]
         elif k == 0:
             d['_'] = p
